@@ -291,6 +291,14 @@ pub fn gen_custom(g: &mut G, max: usize) -> CustomSpec {
             _ => WOp::Write(data),
         });
     }
+    // (no draw) once in a long while a single write of a little over 16 MiB (2^24 is where a chunk-size line
+    // gets its seventh digit): as many octets on the wire as were written
+    let total: usize = ops.iter().map(|o| match o { WOp::Write(b) | WOp::WriteAll(b) => b.len(), WOp::Flush => 0 }).sum();
+    if ops.len() == 6 && total % 31 == 5 {
+        let giant = gen::gen_bytes((1 << 24) + 4321 + total % 1000, 1, total as u64 + 77);
+        ops.insert(total % 6, if total % 2 == 0 { WOp::Write(giant) } else { WOp::WriteAll(giant) });
+        g.probe("custom-body-single-write-over-16-MiB");
+    }
     if ops.iter().any(|o| matches!(o, WOp::Write(b) if b.is_empty())) {
         g.probe("custom-body-zero-length-write");
     }
